@@ -311,3 +311,46 @@ Fixpoint err_wf (h : heap) (e : err) : bool :=
 
 Definition res_pairs (w : bool) (h : heap) (r : option ve) : list (string * string) :=
   match r with None => [] | Some t => pairs w (abs h t) end.
+
+(* ---------- nested constructor calls: every way of building a tree through the public constructors ---------- *)
+Inductive bexp :=
+| BNew (ctx msg : string) (isw : bool)                                   (* NewValidationError *)
+| BErrs (errs : option nat) (kids : option (list (string * bexp)))       (* NewValidationErrors *)
+| BWW (errs warns : option nat) (kids : option (list (string * bexp))).  (* NewValidationErrorsWithWarnings *)
+(* [option nat]: nil or the address of a caller-made map (the same address may be used several times: the
+   same map object).  Children are built before their parent (Go evaluates the arguments first). *)
+
+Section BuildList.
+  Variable rec : bexp -> heap -> ve * heap.
+  Fixpoint build_list (l : list (string * bexp)) (h : heap) : list (string * ve) * heap :=
+    match l with
+    | [] => ([], h)
+    | (k, b) :: r => let '(t, h1) := rec b h in
+                     let '(r', h2) := build_list r h1 in ((k, t) :: r', h2)
+    end.
+End BuildList.
+
+Fixpoint build (b : bexp) (h : heap) {struct b} : ve * heap :=
+  match b with
+  | BNew c m w => new_validation_error c m w h
+  | BErrs e ks =>
+      let '(ks', h1) := match ks with
+                        | None => (None, h)
+                        | Some l => let '(l', h1) := build_list build l h in (Some l', h1)
+                        end in
+      new_validation_errors e ks' h1
+  | BWW e w ks =>
+      let '(ks', h1) := match ks with
+                        | None => (None, h)
+                        | Some l => let '(l', h1) := build_list build l h in (Some l', h1)
+                        end in
+      new_validation_errors_with_warnings e w ks' h1
+  end.
+
+Fixpoint bexp_ok (n : nat) (b : bexp) : bool :=
+  match b with
+  | BNew _ _ _ => true
+  | BErrs e ks => ref_ok n e && match ks with None => true | Some l => forallb (fun kb => bexp_ok n (snd kb)) l end
+  | BWW e w ks => ref_ok n e && ref_ok n w &&
+                  match ks with None => true | Some l => forallb (fun kb => bexp_ok n (snd kb)) l end
+  end.
